@@ -202,6 +202,28 @@ Proof.
   - eapply pca_eq_detects_eigenvalue; eassumption.
 Qed.
 
+(* k-NN: a different number of stored targets is always detected (the relation begins with a length
+   test), so a model never equals the model fitted on the same rows plus appended rows, nor the one
+   fitted on a row-prefix, in either direction, whatever k, the class lists and the common targets are. *)
+Theorem C19_eq_detects_different_lengths : forall T (O : Ops T) (eps : T),
+  (forall a b, List.length (kr_y a) <> List.length (kr_y b) -> knnr_eq O eps a b = false) /\
+  (forall a b, List.length (kc_y a) <> List.length (kc_y b) -> knnc_eq O eps a b = false) /\
+  (forall ys extra k1 k2, extra <> [] ->
+     knnr_eq O eps (mkKNNR ys k1) (mkKNNR (ys ++ extra) k2) = false /\
+     knnr_eq O eps (mkKNNR (ys ++ extra) k2) (mkKNNR ys k1) = false) /\
+  (forall cl1 cl2 ys extra k1 k2, extra <> [] ->
+     knnc_eq O eps (mkKNNC cl1 ys k1) (mkKNNC cl2 (ys ++ extra) k2) = false /\
+     knnc_eq O eps (mkKNNC cl2 (ys ++ extra) k2) (mkKNNC cl1 ys k1) = false).
+Proof.
+  intros T O eps. repeat split; intros.
+  - now apply knnr_eq_detects_different_lengths.
+  - now apply knnc_eq_detects_different_lengths.
+  - now apply knnr_eq_detects_appended.
+  - now apply knnr_eq_detects_appended.
+  - now apply knnc_eq_detects_appended.
+  - now apply knnc_eq_detects_appended.
+Qed.
+
 (* DBSCAN's relation sees labels, number of classes and eps — nothing about the points
    (the known finding dbscan-eq-ignores-points is this theorem read backwards) *)
 Theorem C19_dbscan_eq_sees_only_labels : forall T (O : Ops T) (a b : @dbscan T),
@@ -234,3 +256,12 @@ Proof.
   split; [|vm_compute; repeat split; reflexivity].
   repeat constructor; unfold ffinite; vm_compute; exact I.
 Qed.
+
+(* a regressor and the regressor with one more stored target, on the machine's arithmetic: unequal
+   in both directions — while the zip form of the same loop would call them equal *)
+Example C19_ex_prefix_pair :
+  let a := mkKNNR [1%float; 2%float] 2 in let b := mkKNNR [1%float; 2%float; 3%float] 2 in
+  List.length (kr_y a) <> List.length (kr_y b) /\
+  knnr_eq FOps eps64 a b = false /\ knnr_eq FOps eps64 b a = false /\
+  zipall (close FOps eps64) (kr_y a) (kr_y b) = true /\ zipall (close FOps eps64) (kr_y b) (kr_y a) = true.
+Proof. cbv zeta. split; [cbn; discriminate | vm_compute; repeat split; reflexivity]. Qed.
